@@ -463,6 +463,7 @@ def run_obligations(obs, specs, procs=None):
         spawn()
     running = {}
     done = 0
+    finished = set()        # task indices reported (names may repeat: never count by name)
     import queue as _q
     while done < len(args):
         try:
@@ -475,8 +476,9 @@ def run_obligations(obs, specs, procs=None):
                 running[wid] = (k, payload)
             else:
                 running.pop(wid, None)
-                if obs[k].name not in results:
-                    results[obs[k].name] = payload
+                if k not in finished:
+                    finished.add(k)
+                    results.setdefault(obs[k].name, payload)
                     done += 1
         now = time.time()
         for wid, (k, t0) in list(running.items()):
@@ -487,10 +489,11 @@ def run_obligations(obs, specs, procs=None):
                     p.kill()
                     p.join(1)
                 running.pop(wid, None)
-                if obs[k].name not in results:
-                    results[obs[k].name] = {"name": obs[k].name, "status": "unknown",
-                                            "info": "hard wall-clock limit (%ds): solver killed" % hard, "backend": "-",
-                                            "time": round(now - t0, 1), "log": [], "names": [], "head": ""}
+                if k not in finished:
+                    finished.add(k)
+                    results.setdefault(obs[k].name, {"name": obs[k].name, "status": "unknown",
+                                                     "info": "hard wall-clock limit (%ds): solver killed" % hard, "backend": "-",
+                                                     "time": round(now - t0, 1), "log": [], "names": [], "head": ""})
                     done += 1
                 spawn()
         # a worker that died without reporting: respawn
